@@ -626,6 +626,24 @@ def check_C04(ctx):
                                   "# two runs of the same tests in different orders / subsets (text reporter, forking mode)\n# run A:\n" + ref[name][1] + "\n# run B:\n" + s.text(),
                                   found_input=True, facts={"mode": "fork"})
                 ref.setdefault(name, (v, s.text()))
+    # what a test inherits from the runner - signal dispositions, blocked signals, open descriptors - is the same for every
+    # test, wherever it stands and whatever ran (or died) before it
+    for g in groups:
+        seen = {}
+        for idx in g:
+            s, o = scens[idx], obs[idx]
+            for l in o.fingerprints:
+                path, _, fp = l.partition(" ")
+                depth = path.count("/")
+                key = fp if depth == 1 else None      # (the descriptor count is compared among tests of the outermost suite)
+                if key is None: fp = " ".join(x for x in fp.split(" ") if not x.startswith("fds:"))
+                seen.setdefault(depth == 1, {}).setdefault(fp, (path.split("/")[-1], s.text()))
+        for flat, fps in seen.items():
+            if len(fps) > 1 and shown < 8:
+                shown += 1
+                (fa, (na, ta)), (fb, (nb, tb)) = list(fps.items())[:2]
+                ctx.violation(f"[C04] what a test inherits from the runner depends on what ran before it: test {na} starts with `{fa}`, test {nb} with `{fb}` (signal dispositions for signals 1-31: D default, I ignored, H handled)",
+                              "# (forking mode, text reporter; harness/scenario_run writes <outdir>/fingerprints)\n# run A:\n" + ta + "\n# run B:\n" + tb, found_input=True, facts={"mode": "fork", "inherited_state": True})
     # the same orders as another reporter shows them: what CUTE says about a test (its status lines) does not depend on the order either
     cobs = bench.run_many([(s.text(), "cute") for s in scens])
     for g in groups:
